@@ -289,11 +289,18 @@ fn record(agg: &mut Agg, prop: &str, profile: &str, job: usize, seed: u64, res: 
             if prop == "C06" {
                 add_found(agg, "C06.timeout".into(), format!("run consumed {:.1} s CPU without returning", cpu_s), jobs_case.cloned().unwrap_or(Value::Null));
             }
+            if prop == "C18" {
+                // the worker process *is* the simulated server: it must keep answering
+                add_found(agg, "C18.server_hangs".into(), format!("the simulated server consumed {:.1} s CPU without finishing the run", cpu_s), jobs_case.cloned().unwrap_or(Value::Null));
+            }
         }
         JobResult::Died { detail } => {
             *agg.outcomes.entry("worker_died".into()).or_insert(0) += 1;
             if prop == "C06" {
                 add_found(agg, "C06.abort".into(), format!("worker process died during the run: {}", detail), jobs_case.cloned().unwrap_or(Value::Null));
+            }
+            if prop == "C18" {
+                add_found(agg, "C18.server_process_died".into(), format!("the process hosting the simulated server died during the run (abort / fatal signal): {}", detail), jobs_case.cloned().unwrap_or(Value::Null));
             }
         }
     }
@@ -329,8 +336,14 @@ pub fn exec_in(pool: &mut Pool, case: &Value, want: &[&str], cpu_budget_s: f64) 
                 .unwrap_or_default();
             (vs, r["outcome"].as_str().unwrap_or("?").to_string())
         }
-        JobResult::Timeout { cpu_s } => (vec![("C06".into(), "C06.timeout".into(), format!("run consumed {:.1} s CPU without returning", cpu_s))], "timed_out".into()),
-        JobResult::Died { detail } => (vec![("C06".into(), "C06.abort".into(), format!("worker died: {}", detail))], "worker_died".into()),
+        JobResult::Timeout { cpu_s } => {
+            let is_c = case["sim"] == json!("c");
+            (vec![if is_c { ("C18".into(), "C18.server_hangs".into(), format!("the simulated server consumed {:.1} s CPU without finishing the run", cpu_s)) } else { ("C06".into(), "C06.timeout".into(), format!("run consumed {:.1} s CPU without returning", cpu_s)) }], "timed_out".into())
+        }
+        JobResult::Died { detail } => {
+            let is_c = case["sim"] == json!("c");
+            (vec![if is_c { ("C18".into(), "C18.server_process_died".into(), format!("the process hosting the simulated server died: {}", detail)) } else { ("C06".into(), "C06.abort".into(), format!("worker died: {}", detail)) }], "worker_died".into())
+        }
     }
 }
 
